@@ -611,6 +611,15 @@ def gen_cases(rng, tier):
                     yield dict(k="wfmod", bw=bw, eom_bw=eom_bw, eom=eom, wf=W16.gen_spec(rng, cls, d))
                     yield dict(k="pulse", bw=bw, eom_bw=eom_bw, eom=eom, amp=amp,
                                det=W16.gen_spec(rng, rng.choice(["const", "ramp", "custom", "blackman"]), d))
+    # asymmetric detunings of moderate size (start and end buffers differ; large values would hide the
+    # difference behind the circular wrap-around) under amplitudes with a short tail of their own
+    for bw, eom_bw in ((2.0, None), (4.0, None), (10.0, None), (40.0, None), (4.0, 40.0), (10.0, 100.0)):
+        for d in (100, 400):
+            for v in (0.3, -1.0, 1.5):
+                for a, b in ((0.0, v), (v, 0.0)):
+                    amp = rng.choice([dict(c="const", d=d, v=0.0), dict(c="blackman", d=d, area=0.05)])
+                    yield dict(k="pulse", bw=bw, eom_bw=eom_bw, eom=bool(eom_bw), amp=amp,
+                               det=dict(c="ramp", d=d, a=a, b=b))
     # sequences
     for _ in range(160 * mult):
         yield gen_seq_case(rng)
